@@ -1,4 +1,481 @@
+/-
+  C15 — helper lemmas for `Proofs/C15.lean`.
+
+  * index-wise characterisation of the sequential rewriting (`Good`),
+  * the per-thread invariant `ThInv`, the cell invariant `Cells`, the "final cells stay final" monotonicity,
+  * preservation by `step` and `run`,
+  * a progress measure for a thread running alone.
+-/
 import CstructModel.Sched
+
 namespace Cstruct.C15.Lemmas
-open Cstruct Cstruct.Sched
+open Cstruct Cstruct.Sched Cstruct.Expr
+
+/-! ### The sequential rewriting, index-wise -/
+
+/-- what the rewriting loop writes over token `t` when the previous (rewritten) token is `prev` -/
+def mark (prev : Option String) (t : String) : String :=
+  if t = "-" then
+    match prev with
+    | none => Gen.minusMarker
+    | some p => if ctxTok p then Gen.minusMarker else t
+  else t
+
+theorem rewriteFrom_cons (prev : Option String) (t : String) (r : List String) :
+    rewriteFrom prev (t :: r) = mark prev t :: rewriteFrom (some (mark prev t)) r := rfl
+
+theorem marker_ne : Gen.minusMarker ≠ "-" := by decide
+
+theorem rewriteFrom_length (l : List String) : ∀ prev, (rewriteFrom prev l).length = l.length := by
+  induction l with
+  | nil => intro _; rfl
+  | cons t r ih => intro prev; rw [rewriteFrom_cons, List.length_cons, List.length_cons, ih]
+
+theorem rewriteFrom_get (l : List String) : ∀ prev i, i < l.length →
+    (rewriteFrom prev l)[i]? =
+      some (mark (if i = 0 then prev else (rewriteFrom prev l)[i - 1]?) (l.getD i "")) := by
+  induction l with
+  | nil => intro _ i h; exact absurd h (Nat.not_lt_zero _)
+  | cons t r ih =>
+    intro prev i h
+    rw [rewriteFrom_cons]
+    cases i with
+    | zero => simp
+    | succ i =>
+      have hi : i < r.length := by simpa using h
+      have := ih (some (mark prev t)) i hi
+      simp only [List.getElem?_cons_succ, this, List.getD_cons_succ, Nat.add_sub_cancel, Nat.add_one_ne_zero,
+        if_false]
+      cases i with
+      | zero => simp
+      | succ j => simp
+
+/-- `F` is the sequential rewriting of `O`, stated cell by cell -/
+structure Good (O F : List String) : Prop where
+  len : F.length = O.length
+  ne : ∀ i : Nat, O[i]? ≠ some "-" → F[i]? = O[i]?
+  zero : O[0]? = some "-" → F[0]? = some Gen.minusMarker
+  ctxT : ∀ (i : Nat) (p : String), 0 < i → O[i]? = some "-" → F[i - 1]? = some p → ctxTok p = true → F[i]? = some Gen.minusMarker
+  ctxF : ∀ (i : Nat) (p : String), 0 < i → O[i]? = some "-" → F[i - 1]? = some p → ctxTok p = false → F[i]? = some "-"
+  alt : ∀ i : Nat, F[i]? = O[i]? ∨ F[i]? = some Gen.minusMarker
+
+theorem good_rewriteMinus (O : List String) : Good O (rewriteMinus O) := by
+  have hlen : (rewriteMinus O).length = O.length := rewriteFrom_length O none
+  have hget : ∀ i, i < O.length → (rewriteMinus O)[i]? =
+      some (mark (if i = 0 then none else (rewriteMinus O)[i - 1]?) (O.getD i "")) :=
+    fun i h => rewriteFrom_get O none i h
+  have hO : ∀ i, i < O.length → O[i]? = some (O.getD i "") := by
+    intro i h; simp [List.getD_eq_getElem?_getD, List.getElem?_eq_getElem h]
+  have hout : ∀ i, ¬ i < O.length → (rewriteMinus O)[i]? = O[i]? := by
+    intro i h
+    rw [List.getElem?_eq_none (by omega), List.getElem?_eq_none (by omega)]
+  refine ⟨hlen, ?_, ?_, ?_, ?_, ?_⟩
+  · intro i hne
+    by_cases h : i < O.length
+    · rw [hget i h, hO i h]
+      rw [hO i h] at hne
+      have : O.getD i "" ≠ "-" := fun e => hne (by rw [e])
+      simp only [mark, if_neg this]
+    · exact hout i h
+  · intro h0
+    have h : 0 < O.length := by
+      cases O with
+      | nil => simp at h0
+      | cons => simp
+    rw [hO 0 h] at h0
+    rw [hget 0 h, Option.some.inj h0]
+    simp [mark]
+  · intro i p hi hO' hp hc
+    have h : i < O.length := by
+      apply Nat.lt_of_not_le; intro hle
+      rw [List.getElem?_eq_none hle] at hO'; cases hO'
+    rw [hO i h] at hO'
+    rw [hget i h, Option.some.inj hO', if_neg (by omega), hp]
+    simp [mark, hc]
+  · intro i p hi hO' hp hc
+    have h : i < O.length := by
+      apply Nat.lt_of_not_le; intro hle
+      rw [List.getElem?_eq_none hle] at hO'; cases hO'
+    rw [hO i h] at hO'
+    rw [hget i h, Option.some.inj hO', if_neg (by omega), hp]
+    simp [mark, hc]
+  · intro i
+    by_cases h : i < O.length
+    · rw [hget i h, hO i h]
+      unfold mark
+      split
+      · split
+        · right; rfl
+        · split
+          · right; rfl
+          · left; rfl
+      · left; rfl
+    · left; exact hout i h
+
+/-! ### Invariants -/
+
+/-- every cell is its original or its final content, and the length is unchanged -/
+def Cells (O F toks : List String) : Prop :=
+  toks.length = O.length ∧ ∀ j : Nat, toks[j]? = O[j]? ∨ toks[j]? = F[j]?
+
+/-- per-thread invariant -/
+def ThInv (O F toks : List String) (t : Th) : Prop :=
+  match t.ph with
+  | .readCur => t.i ≤ O.length ∧ (∀ j, j < t.i → toks[j]? = F[j]?) ∧ t.seen = []
+  | .readPrev => 0 < t.i ∧ t.i < O.length ∧ (∀ j, j < t.i → toks[j]? = F[j]?) ∧ O[t.i]? = some "-" ∧ t.seen = []
+  | .write => t.i < O.length ∧ (∀ j, j < t.i → toks[j]? = F[j]?) ∧ O[t.i]? = some "-" ∧
+      F[t.i]? = some Gen.minusMarker ∧ t.seen = []
+  | .main => t.i ≤ O.length ∧ toks = F ∧ t.seen = F.take t.i
+
+/-- final cells stay final -/
+def Mono (F toks toks' : List String) : Prop :=
+  toks'.length = toks.length ∧ ∀ j : Nat, toks[j]? = F[j]? → toks'[j]? = F[j]?
+
+theorem mono_refl (F toks : List String) : Mono F toks toks := ⟨rfl, fun _ h => h⟩
+
+theorem thInv_mono {O F toks toks' : List String} {t : Th}
+    (hm : Mono F toks toks') (h : ThInv O F toks t) : ThInv O F toks' t := by
+  unfold ThInv at *
+  cases hph : t.ph <;> simp only [hph] at h ⊢
+  · exact ⟨h.1, fun j hj => hm.2 j (h.2.1 j hj), h.2.2⟩
+  · exact ⟨h.1, h.2.1, fun j hj => hm.2 j (h.2.2.1 j hj), h.2.2.2⟩
+  · exact ⟨h.1, fun j hj => hm.2 j (h.2.1 j hj), h.2.2⟩
+  · refine ⟨h.1, ?_, h.2.2⟩
+    apply List.ext_getElem?
+    intro j
+    apply hm.2
+    rw [h.2.1]
+
+theorem getD_eq (l : List String) (i : Nat) : l.getD i "" = (l[i]?).getD "" := List.getD_eq_getElem?_getD ..
+
+theorem get_of_lt (l : List String) (i : Nat) (h : i < l.length) : l[i]? = some (l.getD i "") := by
+  simp [List.getD_eq_getElem?_getD, List.getElem?_eq_getElem h]
+
+/-- One step of a thread satisfying its invariant: the cell invariant and the thread's own invariant are
+    preserved and final cells stay final. -/
+theorem step_inv {O F toks : List String} {t : Th} (hg : Good O F) (hc : Cells O F toks)
+    (ht : ThInv O F toks t) :
+    Cells O F (step t toks).2 ∧ ThInv O F (step t toks).2 (step t toks).1 ∧ Mono F toks (step t toks).2 := by
+  obtain ⟨i, ph, seen⟩ := t
+  have hlen := hc.1
+  cases ph
+  · -- readCur
+    simp only [ThInv] at ht
+    obtain ⟨hle, hfin, hseen⟩ := ht
+    simp only [step]
+    by_cases h1 : i ≥ toks.length
+    · rw [if_pos h1]
+      refine ⟨hc, ?_, mono_refl _ _⟩
+      simp only [ThInv]
+      refine ⟨Nat.zero_le _, ?_, by simp [hseen]⟩
+      apply List.ext_getElem?
+      intro j
+      by_cases hj : j < i
+      · exact hfin j hj
+      · rw [List.getElem?_eq_none (by omega), List.getElem?_eq_none (by have := hg.len; omega)]
+    · rw [if_neg h1]
+      have hi : i < toks.length := Nat.lt_of_not_le h1
+      have hti := get_of_lt toks i hi
+      by_cases h2 : toks.getD i "" = "-"
+      · rw [if_pos h2]
+        rw [h2] at hti
+        -- the original cell is "-"
+        have hO : O[i]? = some "-" := by
+          rcases hc.2 i with h | h
+          · rw [← h]; exact hti
+          · rcases hg.alt i with h' | h'
+            · rw [← h', ← h]; exact hti
+            · rw [h, h'] at hti
+              exact absurd (Option.some.inj hti) marker_ne
+        by_cases h3 : i = 0
+        · rw [if_pos h3]
+          refine ⟨hc, ?_, mono_refl _ _⟩
+          simp only [ThInv]
+          subst h3
+          exact ⟨by omega, hfin, hO, hg.zero hO, hseen⟩
+        · rw [if_neg h3]
+          refine ⟨hc, ?_, mono_refl _ _⟩
+          simp only [ThInv]
+          exact ⟨by omega, by omega, hfin, hO, hseen⟩
+      · rw [if_neg h2]
+        refine ⟨hc, ?_, mono_refl _ _⟩
+        simp only [ThInv]
+        refine ⟨by omega, ?_, hseen⟩
+        intro j hj
+        by_cases hji : j < i
+        · exact hfin j hji
+        · have : j = i := by omega
+          subst this
+          rcases hc.2 j with h | h
+          · rw [h]
+            symm
+            apply hg.ne
+            rw [← h, hti]
+            intro e
+            exact h2 (Option.some.inj e)
+          · exact h
+  · -- readPrev
+    simp only [ThInv] at ht
+    obtain ⟨hpos, hlt, hfin, hO, hseen⟩ := ht
+    simp only [step]
+    have hp : F[i - 1]? = some (toks.getD (i - 1) "") := by
+      rw [← hfin (i - 1) (by omega)]
+      exact get_of_lt toks (i - 1) (by omega)
+    by_cases h1 : ctxTok (toks.getD (i - 1) "") = true
+    · rw [if_pos h1]
+      refine ⟨hc, ?_, mono_refl _ _⟩
+      simp only [ThInv]
+      exact ⟨hlt, hfin, hO, hg.ctxT i _ hpos hO hp h1, hseen⟩
+    · rw [if_neg h1]
+      refine ⟨hc, ?_, mono_refl _ _⟩
+      simp only [ThInv]
+      refine ⟨by omega, ?_, hseen⟩
+      have hFi : F[i]? = some "-" := hg.ctxF i _ hpos hO hp (by simpa using h1)
+      intro j hj
+      by_cases hji : j < i
+      · exact hfin j hji
+      · have : j = i := by omega
+        subst this
+        rcases hc.2 j with h | h
+        · rw [h, hO, hFi]
+        · exact h
+  · -- write
+    simp only [ThInv] at ht
+    obtain ⟨hlt, hfin, hO, hFi, hseen⟩ := ht
+    simp only [step]
+    have hset : ∀ j, (toks.set i Gen.minusMarker)[j]? = if j = i then F[j]? else toks[j]? := by
+      intro j
+      rw [List.getElem?_set]
+      by_cases hji : i = j
+      · subst hji
+        rw [if_pos rfl, if_pos rfl, if_pos (by omega), hFi]
+      · rw [if_neg hji, if_neg (fun e => hji e.symm)]
+    refine ⟨⟨by rw [List.length_set]; exact hlen, ?_⟩, ?_, ⟨List.length_set .., ?_⟩⟩
+    · intro j
+      rw [hset j]
+      by_cases hji : j = i
+      · rw [if_pos hji]; right; rfl
+      · rw [if_neg hji]; exact hc.2 j
+    · simp only [ThInv]
+      refine ⟨by omega, ?_, hseen⟩
+      intro j hj
+      rw [hset j]
+      by_cases hji : j = i
+      · rw [if_pos hji]
+      · rw [if_neg hji]; exact hfin j (by omega)
+    · intro j h
+      rw [hset j]
+      by_cases hji : j = i
+      · rw [if_pos hji]
+      · rw [if_neg hji]; exact h
+  · -- main
+    simp only [ThInv] at ht
+    obtain ⟨hle, htoks, hseen⟩ := ht
+    simp only [step]
+    by_cases h1 : i ≥ toks.length
+    · rw [if_pos h1]
+      refine ⟨hc, ?_, mono_refl _ _⟩
+      simp only [ThInv]
+      exact ⟨hle, htoks, hseen⟩
+    · rw [if_neg h1]
+      refine ⟨hc, ?_, mono_refl _ _⟩
+      simp only [ThInv]
+      refine ⟨by omega, htoks, ?_⟩
+      have hi : i < F.length := by rw [← htoks]; omega
+      rw [hseen, htoks, List.take_add_one, List.getD_eq_getElem?_getD, List.getElem?_eq_getElem hi]
+      simp
+
+/-! ### Global invariant and `run` -/
+
+def Inv (O F : List String) (ths : List Th) (toks : List String) : Prop :=
+  Cells O F toks ∧ ∀ t ∈ ths, ThInv O F toks t
+
+theorem inv_init (O : List String) (k : Nat) : Inv O (rewriteMinus O) (List.replicate k Th.init) O := by
+  refine ⟨⟨rfl, fun j => Or.inl rfl⟩, ?_⟩
+  intro t ht
+  rw [List.eq_of_mem_replicate ht]
+  simp only [ThInv, Th.init]
+  exact ⟨Nat.zero_le _, fun j hj => absurd hj (Nat.not_lt_zero _), trivial⟩
+
+theorem inv_step {O F : List String} (hg : Good O F) {ths : List Th} {toks : List String} {tid : Nat} {t : Th}
+    (hinv : Inv O F ths toks) (ht : ths[tid]? = some t) :
+    Inv O F (ths.set tid (step t toks).1) (step t toks).2 := by
+  have hmem : t ∈ ths := List.mem_of_getElem? ht
+  obtain ⟨hc', ht', hm⟩ := step_inv hg hinv.1 (hinv.2 t hmem)
+  refine ⟨hc', ?_⟩
+  intro u hu
+  rcases List.mem_or_eq_of_mem_set hu with h | h
+  · exact thInv_mono hm (hinv.2 u h)
+  · rw [h]; exact ht'
+
+theorem inv_run {O F : List String} (hg : Good O F) (sched : List Nat) : ∀ (ths : List Th) (toks : List String),
+    Inv O F ths toks → Inv O F (run ths toks sched).1 (run ths toks sched).2 := by
+  induction sched with
+  | nil => intro ths toks h; exact h
+  | cons tid rest ih =>
+    intro ths toks h
+    unfold Sched.run
+    cases hget : ths[tid]? with
+    | none => exact ih ths toks h
+    | some t => exact ih _ _ (inv_step hg h hget)
+
+theorem finished_iff (t : Th) (n : Nat) : t.finished n = true ↔ t.ph = .main ∧ t.i ≥ n := by
+  simp [Th.finished]
+
+theorem seen_of_finished {O F toks : List String} {t : Th} (hg : Good O F) (ht : ThInv O F toks t)
+    (hf : t.finished O.length = true) : t.seen = F := by
+  obtain ⟨hph, hi⟩ := (finished_iff _ _).mp hf
+  simp only [ThInv, hph] at ht
+  rw [ht.2.2]
+  apply List.take_of_length_le
+  have := hg.len
+  omega
+
+theorem rewrite_benign (toks0 : List String) (k : Nat) (sched : List Nat) :
+    let final := Expr.rewriteMinus toks0
+    let r := run (List.replicate k Th.init) toks0 sched
+    r.2.length = toks0.length ∧
+    (∀ i, i < toks0.length → r.2.getD i "" = toks0.getD i "" ∨ r.2.getD i "" = final.getD i "") ∧
+    (∀ t ∈ r.1, t.finished toks0.length = true → t.seen = final) := by
+  intro final r
+  have hg := good_rewriteMinus toks0
+  have hinv : Inv toks0 final r.1 r.2 := inv_run hg sched _ _ (inv_init toks0 k)
+  refine ⟨hinv.1.1, ?_, ?_⟩
+  · intro i _
+    rw [getD_eq, getD_eq, getD_eq]
+    rcases hinv.1.2 i with h | h
+    · left; rw [h]
+    · right; rw [h]
+  · intro t ht hf
+    exact seen_of_finished hg (hinv.2 t ht) hf
+
+/-! ### A thread running alone finishes -/
+
+/-- progress measure -/
+def mu (n : Nat) (t : Th) : Nat :=
+  match t.ph with
+  | .readCur => (n + 1) + 3 * (n - t.i) + 2
+  | .readPrev => (n + 1) + 3 * (n - t.i) + 1
+  | .write => (n + 1) + 3 * (n - t.i)
+  | .main => n - t.i
+
+theorem step_finished {t : Th} {toks : List String} (hf : t.finished toks.length = true) :
+    step t toks = (t, toks) := by
+  obtain ⟨hph, hi⟩ := (finished_iff _ _).mp hf
+  obtain ⟨i, ph, seen⟩ := t
+  simp only at hph hi
+  subst hph
+  simp only [step, if_pos hi]
+
+theorem run_finished (m : Nat) (t : Th) (toks : List String) (hf : t.finished toks.length = true) :
+    run [t] toks (List.replicate m 0) = ([t], toks) := by
+  induction m with
+  | zero => rfl
+  | succ m ih =>
+    rw [List.replicate_succ]
+    unfold Sched.run
+    simp only [List.getElem?_cons_zero, step_finished hf, List.set_cons_zero]
+    exact ih
+
+theorem step_progress {O F toks : List String} {t : Th} (hc : Cells O F toks) (ht : ThInv O F toks t)
+    (hnf : t.finished O.length = false) : mu O.length (step t toks).1 < mu O.length t := by
+  obtain ⟨i, ph, seen⟩ := t
+  have hlen := hc.1
+  cases ph
+  · simp only [ThInv] at ht
+    simp only [step]
+    split
+    · simp only [mu]; omega
+    · split
+      · split
+        · simp only [mu]; omega
+        · simp only [mu]; omega
+      · simp only [mu]; omega
+  · simp only [ThInv] at ht
+    simp only [step]
+    split
+    · simp only [mu]; omega
+    · simp only [mu]; omega
+  · simp only [ThInv] at ht
+    simp only [step, mu]
+    omega
+  · simp only [ThInv] at ht
+    have hi : ¬ i ≥ O.length := by
+      intro h
+      have : Th.finished ⟨i, .main, seen⟩ O.length = true := (finished_iff _ _).mpr ⟨rfl, h⟩
+      rw [this] at hnf; cases hnf
+    simp only [step, hlen, if_neg hi, mu]
+    omega
+
+theorem alone_progress {O F : List String} (hg : Good O F) (m : Nat) : ∀ (t : Th) (toks : List String),
+    Inv O F [t] toks →
+    ∃ t', (run [t] toks (List.replicate m 0)).1 = [t'] ∧
+      (t'.finished O.length = true ∨ mu O.length t' + m ≤ mu O.length t) := by
+  induction m with
+  | zero => intro t toks _; exact ⟨t, rfl, Or.inr (Nat.le_refl _)⟩
+  | succ m ih =>
+    intro t toks hinv
+    cases hf : t.finished O.length with
+    | true =>
+      have hf' : t.finished toks.length = true := by rw [hinv.1.1]; exact hf
+      exact ⟨t, by rw [run_finished _ _ _ hf'], Or.inl hf⟩
+    | false =>
+      have hstep := inv_step (tid := 0) hg hinv (t := t) rfl
+      have hprog := step_progress hinv.1 (hinv.2 t (List.mem_singleton.mpr rfl)) hf
+      rw [List.set_cons_zero] at hstep
+      obtain ⟨t', hrun, hfin⟩ := ih _ _ hstep
+      refine ⟨t', ?_, ?_⟩
+      · rw [List.replicate_succ]
+        unfold Sched.run
+        simp only [List.getElem?_cons_zero, List.set_cons_zero]
+        exact hrun
+      · rcases hfin with h | h
+        · exact Or.inl h
+        · right; omega
+
+theorem alone (toks0 : List String) :
+    ∃ n, ∀ m, n ≤ m → ∀ t ∈ (run [Th.init] toks0 (List.replicate m 0)).1,
+      t.finished toks0.length = true ∧ t.seen = Expr.rewriteMinus toks0 := by
+  refine ⟨4 * toks0.length + 4, ?_⟩
+  intro m hm t ht
+  have hg := good_rewriteMinus toks0
+  have hinit : Inv toks0 (rewriteMinus toks0) [Th.init] toks0 := inv_init toks0 1
+  have hinv := inv_run hg (List.replicate m 0) _ _ hinit
+  obtain ⟨t', hrun, hfin⟩ := alone_progress hg m _ _ hinit
+  rw [hrun] at ht
+  have htt : t = t' := List.mem_singleton.mp ht
+  subst htt
+  have hf : t.finished toks0.length = true := by
+    rcases hfin with h | h
+    · exact h
+    · exfalso
+      have : mu toks0.length Th.init = toks0.length + 1 + 3 * toks0.length + 2 := by
+        simp [mu, Th.init]
+      omega
+  refine ⟨hf, ?_⟩
+  apply seen_of_finished hg (hinv.2 t ?_) hf
+  rw [hrun]; exact List.mem_singleton.mpr rfl
+
+/-! ### Memo tables -/
+
+theorem memo_transparent {K V} [DecidableEq K] (f : K → V) (m : List (K × V)) (hm : ∀ p ∈ m, p.2 = f p.1) (k : K) :
+    (memoGet f m k).1 = f k ∧ ∀ p ∈ (memoGet f m k).2, p.2 = f p.1 := by
+  unfold memoGet
+  cases hfind : m.find? (·.1 = k) with
+  | none =>
+    refine ⟨rfl, ?_⟩
+    intro p hp
+    rcases List.mem_cons.mp hp with h | h
+    · rw [h]
+    · exact hm p h
+  | some kv =>
+    obtain ⟨k', v⟩ := kv
+    have hmem := List.mem_of_find?_eq_some hfind
+    have hpred := List.find?_some hfind
+    simp only [decide_eq_true_eq] at hpred
+    refine ⟨?_, hm⟩
+    have := hm _ hmem
+    simp only at this
+    rw [this, hpred]
+
 end Cstruct.C15.Lemmas
